@@ -34,6 +34,17 @@ MUST_FAIL = ["{% unknown_tag %}", "{{ x | no_such_filter }}", "{{ x | upcase: 1 
              "{% include %}", "{% render %}", "{% if x == %}{% endif %}", "{% if == 1 %}{% endif %}", "{% if x and %}{% endif %}", "{% unless %}{% endunless %}", "{% if x %}{% else %}{% else x %}{% endif %}", "{% endraw %}", "{% endcomment %}",
              "{% for x in y limit %}{% endfor %}", "{% for x in y limit: %}{% endfor %}", "{% tablerow x in y cols %}{% endtablerow %}", "{% if x %}{% endif x %}", "{% raw x %}{% endraw %}", "{% comment %}{% if x %}", "{% comment %}{% raw %}{% endcomment %}",
              "{% assign z = \"\n{{ 'a\" %}{{ b' }}", "{{ x | }}", "{{ | upcase }}", "{{ x || upcase }}", "{{ x.y. }}", "{{ x[ }}", "{{ x[] }}", "{{ x..y }}", "{{ (1..3) }}", "{{ 1.. }}", "{% ifchanged %}", "{% break x %}", "{% continue 1 %}"]
+ARG_POOL = ["nil", "null", "empty", "blank", "true", "false", "1", "-1", "1.5", "0", "'str'", '"dq"', "''", "x", "x.y", "x[0]", 'x["k"]', "x[y]", "(1..3)", "(x..y)", "99999999999999999999", "é", "-", "in", "with", "as", "for",
+            "forloop", "x | upcase", "1..3", "x y", ""]
+ARG_CORE = ["nil", "empty", "1", "'str'", "x", "(1..3)"]
+ARG_SCHEMAS = ["{% cycle S: 'a', 'b' %}", "{% cycle S, S %}", "{% cycle 'g': S %}", "{% cycle S %}", "{% for i in S %}{% endfor %}", "{% for i in (S..S) %}{% endfor %}", "{% for i in a limit: S offset: S %}{% endfor %}",
+               "{% for S in a %}{% endfor %}", "{% for i in a reversed S %}{% endfor %}", "{% tablerow i in S cols: S %}{% endtablerow %}", "{% tablerow i in a limit: S offset: S %}{% endtablerow %}", "{% if S %}{% endif %}",
+               "{% if S == S %}{% endif %}", "{% if S contains S %}{% endif %}", "{% if x and S %}{% endif %}", "{% unless S %}{% endunless %}", "{% if x %}{% elsif S %}{% endif %}", "{% case S %}{% when S %}{% endcase %}",
+               "{% case x %}{% when S, S %}{% endcase %}", "{% case x %}{% when S or S %}{% endcase %}", "{% assign v = S %}", "{% assign S = 1 %}", "{% assign v = x | append: S %}", "{% capture S %}{% endcapture %}", "{% include S %}",
+               "{% include 'p' k: S %}", "{% include 'p' S: 1 %}", "{% include 'p', S %}", "{% render S %}", "{% render 'p' with S as v %}", "{% render 'p' for S as v %}", "{% render 'p', k: S %}", "{% render 'p' with x as S %}",
+               "{% increment S %}", "{% decrement S %}", "{{ S }}", "{{ S | append: S }}", "{{ a | slice: S, S }}", "{{ a[S] }}", "{{ a.S }}", "{{ a | date: S }}", "{{ a | truncate: S, S }}", "{{ a | S }}", "{{ a | default: S }}",
+               "{{ a | replace: S, S }}", "{{ a | where: S, S }}", "{{ a | S: S }}", "{% ifchanged S %}{% endifchanged %}", "{% break S %}", "{% continue S %}", "{% raw S %}{% endraw %}", "{% comment S %}{% endcomment %}",
+               "{% endif S %}", "{% if x %}{% else S %}{% endif %}", "{% for i in a %}{% else S %}{% endfor %}", "{% case x %}{% else S %}{% endcase %}", "{% S %}", "{% S x %}", "{%- S -%}", "{{- S -}}"]
 ERR_SCHEMAS = ['{{ x | upcase: "P" }}', '{{ x | truncate: 5, "...", "P" }}', '{% assign y = x | downcase: "P" %}', '{{ x | nofilter: "P" }}', '{% unknown "P" %}', '{% if "P" %}', '{{ "P" | plus }}',
                '{% assign P = 1 %}', '{{ "P }}', '{% for i in "P" %}', '{% cycle "P": 1, %}', '{% case "P" %}{% bogus %}{% endcase %}', 'P{% endif %}', '{% render "P" with %}', '{{ x | date: "P", "P" }}',
                '{% if x === "P" %}{% endif %}', '{% tablerow i in "P" cols: %}', '{% include "P" "P" %}', "{{ x | append: 'P', 'P' }}", '{% P %}', '{{ x.P }}', '{{ x["P" }}', '{% capture "P" %}{% endcapture %}',
@@ -231,6 +242,18 @@ def gen(tier, seed):
         for ch in ("é", "日", "\U0001F600"):
             for k in (range(0, 70) if tier == "thorough" else list(range(0, 9)) + list(range(12, 70, 1 if ch == "é" else 3))):
                 add(schema.replace("P", "a" * k + ch * 12), "rejection with a long non-ASCII payload")
+    # every argument position of every tag / block / filter call filled with every kind of expression (literals of all kinds incl. nil / empty / blank, paths, ranges, keywords, junk)
+    for schema in ARG_SCHEMAS:
+        k = schema.count("S")
+        if k == 1:
+            fills = [(a,) for a in ARG_POOL]
+        elif k == 2:
+            fills = list(itertools.product(ARG_POOL, repeat=2)) if tier == "thorough" else [(a, b) for a in ARG_POOL for b in ARG_POOL if a == b or a in ARG_CORE or b in ARG_CORE]
+        else:
+            fills = [tuple(a if j == i else "x" for j in range(k)) for i in range(k) for a in ARG_POOL] + [tuple(a for _ in range(k)) for a in ARG_POOL]
+        for f in fills:
+            parts = schema.split("S")
+            add("".join(x + (f[i] if i < len(f) else "") for i, x in enumerate(parts)), "tag argument grid")
     for t in MUST_FAIL:
         add(t, "must be rejected")
     for t in MUST_PARSE:
@@ -290,7 +313,7 @@ def main(tier, seed):
             if len(samples) < 3 and c["why"] == "random token soup":
                 samples.append({"request": {"text": c["text"], "config": config}, "implementation": r})
     # the grammar model on the same texts
-    heavy = ("exhaustive lexeme sequences (length 3", "exhaustive lexeme sequences (length 4", "exhaustive element sequences", "random nesting of blocks", "rejection with a long")
+    heavy = ("exhaustive lexeme sequences (length 3", "exhaustive lexeme sequences (length 4", "exhaustive element sequences", "random nesting of blocks", "rejection with a long", "tag argument grid")
     lex_texts = [c["text"] for c in cases if not c["why"].startswith(heavy)]
     block_texts_ = [c["text"] for c in cases if c["why"].startswith(heavy[2:4])]
     rnd = random.Random(seed)
